@@ -339,10 +339,17 @@ def flatten_job(fixture, tier, timeout_ms=400000, only_goal=None, wire_cube=None
     fr = Frame(None, True, {})
     kn = u.keys.index(".NAME")
     A = pre.type_constraints() + spec.inv_all(pre) + H.local_nets(pre, fx)
-    for c in ("Instance", "Cable"):
+    # instances and cables carry concrete, distinct names (the property quantifies over named items; the names
+    # flatten builds are then concrete strings and only the connections are left to the solver)
+    for c, pfx_ in (("Instance", "i"), ("Cable", "c")):
         for i in range(u.live[c]):
-            A.append(pre.data[c][i][kn][0])
+            pre.data[c][i][kn] = (True, ATOMS.intern("%s%d" % (pfx_, i)))
+            heap.data[c][i][kn] = pre.data[c][i][kn]
     A = [B(a) for a in A if a is not True]
+    ctx.path_assumptions = list(A)
+    ctx.prune_infeasible_raises = True
+    ctx.globals_over[("spydrnet.flatten", "mod_name_uid")] = 0
+    ctx.globals_over[("spydrnet.flatten", "unique_number")] = 0
     paths = H.enumerate_paths(u, fx)
     W, adj = hwire_adjacency(pre, u, fx, paths)
     R = closure(W, adj)
